@@ -157,9 +157,10 @@ class Pipe:
                 return fv.selfv
             if q in ("utils.int2name", "utils.hex2rgbstr", "utils.hex2html", "tex.uni2tex"):
                 return Opaque("%s(%s)" % (fv.func.name, ", ".join(key(a) for a in args)), kind="str")
-            if q.startswith("timeline.Timeline.") and q.endswith("Color") and fv.func.name != "colorFunc":
+            if fv.func.module.name == "timeline" and q.endswith("Color") and fv.func.name != "colorFunc":
                 return None
-            if q == "timeline.Timeline.colorFunc":
+            if fv.func.name == "colorFunc" and fv.func.module.name == "timeline":
+                # the colour resolver (wherever the class layout puts it): symbolic
                 return Opaque("COLOR(%s)" % ", ".join([key(a) for a in args] + ["%s=%s" % kv for kv in sorted((k, key(v)) for k, v in kwargs.items())]), kind="str")
         if isinstance(fv, Ext) and fv.name.endswith("ElementTree.SubElement"):
             self.elem_k += 1
